@@ -4,6 +4,7 @@ import (
 	"diagonal.works/b6"
 	"diagonal.works/b6/api"
 	pb "diagonal.works/b6/proto"
+	"fmt"
 
 	"github.com/golang/geo/s2"
 )
@@ -105,6 +106,9 @@ func intersecting(context *api.Context, geometry b6.Geometry) (b6.Query, error) 
 
 // Return a query that will match features that intersect a spherical cap centred on the given point, with the given radius in meters.
 func intersectingCap(context *api.Context, center b6.Geometry, radius float64) (b6.Query, error) {
+	if center == nil {
+		return nil, fmt.Errorf("expected a point as the center, found nothing")
+	}
 	return b6.NewIntersectsCap(s2.CapFromCenterAngle(center.Point(), b6.MetersToAngle(radius))), nil
 }
 
@@ -170,6 +174,9 @@ func within(context *api.Context, a b6.Area) (b6.Query, error) {
 // Return a query that will match features that intersect a spherical cap centred on the given point, with the given radius in meters.
 // Deprecated. Use intersecting-cap.
 func withinCap(context *api.Context, point b6.Geometry, radius float64) (b6.Query, error) {
+	if point == nil {
+		return nil, fmt.Errorf("expected a point as the center, found nothing")
+	}
 	return b6.NewIntersectsCap(s2.CapFromCenterAngle(point.Point(), b6.MetersToAngle(radius))), nil
 }
 
